@@ -1,6 +1,7 @@
 """Shared machinery for ./check: Coq build + assumption audit, Go harness build/run, in-Coq evaluation of
 correspondence cases (vm_compute), known-findings filter, VIOLATION/KNOWN-FINDING lines, evidence writer."""
 import fcntl
+import hashlib
 import json
 import os
 import re
@@ -10,7 +11,7 @@ import time
 from concurrent.futures import ThreadPoolExecutor
 
 ROOT = os.path.dirname(os.path.dirname(os.path.abspath(__file__)))
-COQ = os.path.join(ROOT, "coq")
+COQ = os.environ.get("VERIF_COQ") or os.path.join(ROOT, "coq")
 HARNESS = os.path.join(ROOT, "harness")
 WORK = os.path.join(ROOT, ".work")
 REPO = os.environ.get("VERIF_REPO", "/repo")
@@ -142,14 +143,34 @@ class Check:
             f.write("Require Import %s.\n" % mod)
             for t in thms:
                 f.write('Goal True. idtac "@@THM %s". exact I. Qed.\nPrint Assumptions %s.\n' % (t, t))
+                f.write('Goal True. idtac "@@STMT %s". exact I. Qed.\nCheck %s.\n' % (t, t))
         cmd = "coqc -Q %s LE %s" % (COQ, aud)
         self.checker_cmds.append(cmd)
         rc, out = sh(cmd, cwd=self.work)
         if rc != 0:
             self.fail_obligation("assumption-audit", "audit file failed: " + out[-800:])
             return False
+        # statements as the kernel prints them (pinned in pins/<prop>.json so that a theorem cannot be quietly weakened or dropped)
+        stmts = {}
+        for m in re.finditer(r"@@STMT (\S+)\n(.*?)(?=@@THM |@@STMT |\Z)", out, re.S):
+            stmts[m.group(1)] = " ".join(m.group(2).split())
+        out = re.sub(r"@@STMT (\S+)\n(.*?)(?=@@THM |@@STMT |\Z)", "", out, flags=re.S)
+        self.statements = stmts
         parts = re.split(r"@@THM (\S+)\n", out)
         allok = True
+        pinp = os.path.join(ROOT, "pins", "%s.json" % self.prop)
+        if os.path.exists(pinp) and prop_file == "Properties/%s.v" % self.prop:
+            pins = json.load(open(pinp))
+            self.obligations += 1
+            changed = [n for n, h in pins.items() if n not in stmts or hashlib.sha256(stmts[n].encode()).hexdigest() != h]
+            if changed:
+                allok = False
+                self.fail_obligation("pinned-statements", "pinned theorem(s) missing or restated (re-pin deliberately with tools/pin.py "
+                                     "after review): " + ", ".join(changed[:8]))
+            else:
+                self.discharged += 1
+            self.extra["pinned_theorems"] = len(pins)
+            self.extra["unpinned_theorems"] = sorted(n for n in stmts if n not in pins)
         for i in range(1, len(parts), 2):
             name, txt = parts[i], parts[i + 1].strip()
             self.assumptions_text[name] = txt
@@ -259,7 +280,7 @@ class Check:
                 open(mf, "w").write(txt)
                 open(os.path.join(self.work, "alt.sum"), "w").write(open(os.path.join(REPO, "go.sum")).read())
                 modargs = ["-modfile=" + mf]
-                binp += "-alt"
+                binp += "-alt-%d" % os.getpid()
             cmd = ["go", "build"] + modargs + ["-tags", tags] + (["-race"] if race else []) + ["-o", binp, "./cmd/" + name]
             rc, out = sh(cmd, cwd=HARNESS, env=GOENV, timeout=1500)
         if rc != 0:
